@@ -310,6 +310,130 @@ theorem checkSig_cons_byt (m : Nat) (kb : Bytes) (v : CVal) (c : List (CKey × C
     SigPure.checkSig H C m ((.byt kb, v) :: c) allowed sig vkey = SigPure.checkSig H C m c allowed sig vkey := by
   simp only [SigPure.checkSig, SigPure.message, msgFrom_cons_byt]
 
+/-! ### IF / ELSE, hashes, EQUAL -/
+/-- the frame an inline (IF / ELSE) body runs in -/
+def inlineFrame (body : Bytes) (fr : Frame) (sh : Shared) : Frame :=
+  { rest := body, count := getCount fr sh, fn := none, dict := (copyDict sh fr.dict).1, len0 := body.length, cap := fr.len0 }
+
+theorem Steps.sub_inline_ok {T : UInt8 → Op} {L : Limits} {body : Bytes} {k : Op} {fr fr' : Frame} {sh sh' : Shared} {r : Res}
+    (hb : TSteps T L (inlineFrame body fr sh) (copyDict sh fr.dict).2 (.ok fr' sh'))
+    (hret : sh'.returned = false) (h : Steps T L k fr sh' r) :
+    Steps T L (.sub .inline body k) fr sh r := by
+  obtain ⟨n, hn, hf⟩ := h
+  obtain ⟨m, hm, _⟩ := hb
+  have hm' := runTape_mono T L (Nat.le_max_left m n) hm rfl
+  have hn' := runOp_mono T L (Nat.le_max_right m n) hn hf
+  refine ⟨max m n + 1, ?_, hf⟩
+  unfold inlineFrame at hm'
+  simp only [runOp, hm', hret, Bool.false_eq_true, ↓reduceIte, hn']
+
+theorem Steps.sub_inline_err {T : UInt8 → Op} {L : Limits} {body : Bytes} {k : Op} {fr : Frame} {sh sh' : Shared} {e : Err}
+    (he : e ≠ .fuel)
+    (hb : TSteps T L (inlineFrame body fr sh) (copyDict sh fr.dict).2 (.err e sh')) :
+    Steps T L (.sub .inline body k) fr sh (.err e sh') := by
+  obtain ⟨m, hm, _⟩ := hb
+  refine ⟨m + 1, ?_, by cases e <;> first | rfl | exact absurd rfl he⟩
+  unfold inlineFrame at hm
+  simp only [runOp, hm]
+
+theorem u2_of_nat (n : Nat) (h : n < 65536) : natOfBytesBE (u2 n) = n := by
+  unfold u2; rw [natOf_natTo]; exact Nat.mod_eq_of_lt (by simpa using h)
+
+/-- `OP_IF_ELSE` whose chosen body ends normally (no RETURN): continue after the construct -/
+theorem run_ifelse_ok (fr fr' : Frame) (sh sh' : Shared) (rest' a b c : Bytes) (st : List Bytes) (r : Res)
+    (hrest : fr.rest = ifElse a b ++ rest') (ha : a.length < 65536) (hb : b.length < 65536)
+    (hcap : fr.len0 < fr.cap) (hr : sh.returned = false) (hs : sh.stack = c :: st)
+    (hbody : TSteps (instrTable H C cfg) cfg.lim
+        (inlineFrame (if truthy c then a else b) { fr with rest := rest' } { sh with stack := st })
+        (copyDict { sh with stack := st } fr.dict).2 (.ok fr' sh'))
+    (hret : sh'.returned = false)
+    (h : TSteps (instrTable H C cfg) cfg.lim { fr with rest := rest' } sh' r) :
+    TSteps (instrTable H C cfg) cfg.lim fr sh r := by
+  have hrest' : fr.rest = 44 :: (u2 a.length ++ (a ++ (u2 b.length ++ (b ++ rest')))) := by
+    simpa [ifElse, opc, List.append_assoc] using hrest
+  refine run_instr fr _ sh _ 44 _ r hrest' hcap hr ?_ h
+  show Steps _ _ (opIfElse .done) _ _ _
+  unfold opIfElse readU2
+  have hu : ∀ k, (u2 k).length = 2 := fun k => natToBytesBE_length 2 k
+  nstep Steps.read (by simp [hu]) ?_
+  rw [take_append_len _ _ _ (hu _), drop_append_len _ _ _ (hu _), u2_of_nat _ ha]
+  nstep Steps.read (by simp) ?_
+  rw [take_append_len _ _ _ rfl, drop_append_len _ _ _ rfl]
+  nstep Steps.read (by simp [hu]) ?_
+  rw [take_append_len _ _ _ (hu _), drop_append_len _ _ _ (hu _), u2_of_nat _ hb]
+  nstep Steps.read (by simp) ?_
+  rw [take_append_len _ _ _ rfl, drop_append_len _ _ _ rfl]
+  nstep Steps.pop c st hs ?_
+  exact Steps.sub_inline_ok hbody hret (Steps.done _ _)
+
+/-- `OP_IF_ELSE` whose chosen body fails: the error propagates -/
+theorem run_ifelse_err (fr : Frame) (sh sh' : Shared) (rest' a b c : Bytes) (st : List Bytes) (e : Err)
+    (hrest : fr.rest = ifElse a b ++ rest') (ha : a.length < 65536) (hb : b.length < 65536)
+    (hcap : fr.len0 < fr.cap) (hr : sh.returned = false) (hs : sh.stack = c :: st) (he : e ≠ .fuel)
+    (hbody : TSteps (instrTable H C cfg) cfg.lim
+        (inlineFrame (if truthy c then a else b) { fr with rest := rest' } { sh with stack := st })
+        (copyDict { sh with stack := st } fr.dict).2 (.err e sh')) :
+    TSteps (instrTable H C cfg) cfg.lim fr sh (.err e sh') := by
+  have hrest' : fr.rest = 44 :: (u2 a.length ++ (a ++ (u2 b.length ++ (b ++ rest')))) := by
+    simpa [ifElse, opc, List.append_assoc] using hrest
+  refine TSteps.cons_err 44 _ hrest' hcap hr ?_
+  show Steps _ _ (opIfElse .done) _ _ _
+  unfold opIfElse readU2
+  have hu : ∀ k, (u2 k).length = 2 := fun k => natToBytesBE_length 2 k
+  nstep Steps.read (by simp [hu]) ?_
+  rw [take_append_len _ _ _ (hu _), drop_append_len _ _ _ (hu _), u2_of_nat _ ha]
+  nstep Steps.read (by simp) ?_
+  rw [take_append_len _ _ _ rfl, drop_append_len _ _ _ rfl]
+  nstep Steps.read (by simp [hu]) ?_
+  rw [take_append_len _ _ _ (hu _), drop_append_len _ _ _ (hu _), u2_of_nat _ hb]
+  nstep Steps.read (by simp) ?_
+  rw [take_append_len _ _ _ rfl, drop_append_len _ _ _ rfl]
+  nstep Steps.pop c st hs ?_
+  exact Steps.sub_inline_err he hbody
+
+/-- `OP_SHA256` -/
+theorem run_sha256 (fr : Frame) (sh : Shared) (rest' : Bytes) (x : Bytes) (st : List Bytes) (r : Res)
+    (hrest : fr.rest = SHA256 ++ rest') (hcap : fr.len0 < fr.cap) (hr : sh.returned = false)
+    (hs : sh.stack = x :: st) (hsz : (H.sha256 x).length ≤ cfg.lim.maxItemSize) (hroom : st.length < cfg.lim.maxItems)
+    (h : TSteps (instrTable H C cfg) cfg.lim { fr with rest := rest' } { sh with stack := H.sha256 x :: st } r) :
+    TSteps (instrTable H C cfg) cfg.lim fr sh r := by
+  refine run_instr fr _ sh _ 30 rest' r (by simpa [SHA256, opc] using hrest) hcap hr ?_ h
+  show Steps _ _ (opSha256 H .done) _ _ _
+  unfold opSha256
+  nstep Steps.pop x st hs ?_
+  nstep Steps.push hsz (by simpa using hroom) ?_
+  exact Steps.done _ _
+
+/-- `OP_SHAKE256 <n>` -/
+theorem run_shake256 (fr : Frame) (sh : Shared) (rest' : Bytes) (n : Nat) (x : Bytes) (st : List Bytes) (r : Res)
+    (hrest : fr.rest = SHAKE256 n ++ rest') (hn : n < 256) (hcap : fr.len0 < fr.cap) (hr : sh.returned = false)
+    (hs : sh.stack = x :: st) (hsz : (H.shake256 x n).length ≤ cfg.lim.maxItemSize) (hroom : st.length < cfg.lim.maxItems)
+    (h : TSteps (instrTable H C cfg) cfg.lim { fr with rest := rest' } { sh with stack := H.shake256 x n :: st } r) :
+    TSteps (instrTable H C cfg) cfg.lim fr sh r := by
+  refine run_instr fr _ sh _ 31 (UInt8.ofNat n :: rest') r (by simpa [SHAKE256, opc] using hrest) hcap hr ?_ h
+  show Steps _ _ (opShake256 H .done) _ _ _
+  unfold opShake256 readU1
+  nstep Steps.read (by simp) ?_
+  simp only [List.take_succ_cons, List.take_zero, List.drop_succ_cons, List.drop_zero, u1_of_nat _ hn]
+  nstep Steps.pop x st hs ?_
+  nstep Steps.push hsz (by simpa using hroom) ?_
+  exact Steps.done _ _
+
+/-- `OP_EQUAL` -/
+theorem run_equal (fr : Frame) (sh : Shared) (rest' : Bytes) (a b : Bytes) (st : List Bytes) (r : Res)
+    (hrest : fr.rest = EQUAL ++ rest') (hcap : fr.len0 < fr.cap) (hr : sh.returned = false)
+    (hs : sh.stack = a :: b :: st) (h1 : 1 ≤ cfg.lim.maxItemSize) (hroom : st.length < cfg.lim.maxItems)
+    (h : TSteps (instrTable H C cfg) cfg.lim { fr with rest := rest' } { sh with stack := boolBytes (a == b) :: st } r) :
+    TSteps (instrTable H C cfg) cfg.lim fr sh r := by
+  refine run_instr fr _ sh _ 33 rest' r (by simpa [EQUAL, opc] using hrest) hcap hr ?_ h
+  show Steps _ _ (opEqual .done) _ _ _
+  unfold opEqual pushBool
+  nstep Steps.pop a (b :: st) hs ?_
+  nstep Steps.pop b st rfl ?_
+  nstep Steps.push (by cases (a == b) <;> simp [boolBytes] <;> omega) (by simpa using hroom) ?_
+  exact Steps.done _ _
+
+
 /-! ### outcomes -/
 /-- what a run amounts to for the verdict: the final stack, or the error -/
 def Res.summary : Res → Except Err (List Bytes)
